@@ -88,6 +88,8 @@ class PathCtx:
                 self.lin.add(f)
         self.trace = []            # branch labels taken (for reporting)
         self.frozen = {}           # id(container) -> description (parameter-owned mutable containers)
+        self.frozen_qty = {}       # id(Qty) -> description (parameter-owned Quantity objects)
+        self.frozen_keep = []      # keeps those objects alive so that ids are not recycled
         self.dirty_roots = set()
         self.sanctioned = set()
         self.oblig_prefix = ""
@@ -100,6 +102,7 @@ class PathCtx:
         self.lemma_hooks = []
         self.folds = []            # MaxOver/MinOver symbols over symbolic index ranges (see fold_extreme)
         self.fold_points = []      # (index term, length term) at which fold universals are instantiated
+        self.index_hooks = []      # contract-supplied ground-lemma generators, called for every index term registered
 
     # -- symbols ---------------------------------------------------------------------
     def fresh(self, prefix, sort="real"):
@@ -123,6 +126,9 @@ class PathCtx:
         extrema of pointwise-related functions are compared through each other's witnesses."""
         nk = z3.simplify(Z(n) if not isinstance(n, int) else z3.IntVal(n)).sexpr()
         w = self.fresh(f"w_{tag}", "int")
+        self.assume(z3.And(w >= 0, w < Z(n)), why=f"fold-witness-range:{tag}")
+        for hook in getattr(self, "index_hooks", ()):
+            hook(self, w, n)
         fw = f(w)
         m = self.fresh(f"{kind}_{tag}", "int" if _is_int_term(fw) else "real")
         self.assume(z3.And(w >= 0, w < Z(n)), why=f"fold-witness-range:{tag}")
@@ -146,6 +152,8 @@ class PathCtx:
         """Register an index term i (0 <= i < n) at which every extremum over a range of length n is bounded."""
         nk = z3.simplify(Z(n) if not isinstance(n, int) else z3.IntVal(n)).sexpr()
         self.fold_points.append((i, nk))
+        for hook in getattr(self, "index_hooks", ()):
+            hook(self, i, n)
         for rec in self.folds:
             if rec["n"] == nk:
                 fi = Z(rec["f"](i))
